@@ -667,6 +667,8 @@ static int state_sync_process(struct snapraid_state* state, struct snapraid_pari
 	struct snapraid_handle* handle;
 	void* rehandle_alloc;
 	struct snapraid_rehash* rehandle;
+	void* pasthandle_alloc;
+	struct snapraid_rehash* pasthandle;
 	unsigned diskmax;
 	block_off_t blockcur;
 	unsigned j;
@@ -706,6 +708,7 @@ static int state_sync_process(struct snapraid_state* state, struct snapraid_pari
 
 	/* rehash buffers */
 	rehandle = malloc_nofail_align(diskmax * sizeof(struct snapraid_rehash), &rehandle_alloc);
+	pasthandle = malloc_nofail_align(diskmax * sizeof(struct snapraid_rehash), &pasthandle_alloc);
 
 	/* we need 1 * data + 1 * parity */
 	buffermax = diskmax + state->level;
@@ -854,6 +857,9 @@ static int state_sync_process(struct snapraid_state* state, struct snapraid_pari
 
 			/* by default no rehash in case of "continue" */
 			rehandle[diskcur].block = 0;
+
+			/* by default no past hash to restore */
+			pasthandle[diskcur].block = 0;
 
 			/* if the disk position is not used */
 			if (!disk)
@@ -1011,6 +1017,12 @@ static int state_sync_process(struct snapraid_state* state, struct snapraid_pari
 						parity_needs_to_be_updated = 1;
 					}
 				}
+
+				/* keep the past hash, to restore it if the block is skipped, */
+				/* because in such case the parity still contains the past data */
+				/* and check and fix use the past hash to recognize it */
+				pasthandle[diskcur].block = block;
+				memcpy(pasthandle[diskcur].hash, block->hash, BLOCK_HASH_SIZE);
 
 				/* copy the hash in the block, but doesn't mark the block as hashed */
 				/* this allow in case of skipped block to do not save the failed computation */
@@ -1222,6 +1234,13 @@ static int state_sync_process(struct snapraid_state* state, struct snapraid_pari
 				/* we are also clearing any previous bad and rehash flag */
 				info_set(&state->infoarr, blockcur, info_make(now, 0, 0, 1));
 			}
+		} else {
+			/* the blocks are skipped, and the parity is not updated, */
+			/* restore the past hash of the blocks not yet hashed */
+			for (j = 0; j < diskmax; ++j) {
+				if (pasthandle[j].block)
+					memcpy(pasthandle[j].block->hash, pasthandle[j].hash, BLOCK_HASH_SIZE);
+			}
 		}
 
 		/* if a silent (even if corrected) or input/output error was found */
@@ -1415,6 +1434,7 @@ bail:
 	free(copy_alloc);
 	free(copy);
 	free(rehandle_alloc);
+	free(pasthandle_alloc);
 	free(failed);
 	free(failed_map);
 	free(waiting_map);
